@@ -292,6 +292,50 @@ pub fn drive(log: &mut Log) {
             run_one(log, "bd", &text, &alpha, &ks);
         }
     }
+    // (d) long runs of one symbol (600..3000 rows) under Occ rates beyond 256: every counted stretch of
+    //     Occ::get -- forwards from the low checkpoint, backwards from the high one -- can then hold
+    //     256 and more occurrences of the queried symbol.  Raw strings (Occ does not care whether its
+    //     input is the BWT of a text); every row and every symbol is compared.
+    let longs: Vec<(usize, usize)> = if log.opts.thorough() {
+        vec![(0, 700), (1, 1200), (2, 1300), (3, 2100), (0, 3000), (1, 2600), (2, 900), (3, 3000), (4, 1500)]
+    } else {
+        vec![(0, 700), (1, 1300), (2, 2100), (3, 3000)]
+    };
+    for &(shape, n) in &longs {
+        case += 1;
+        if !log.mine(case) {
+            continue;
+        }
+        let mut rng = Rng::new(seed, 20, case);
+        let st: Vec<u8> = match shape {
+            0 => {
+                let mut v = vec![b'a'; n];
+                v[n - 1] = b'$';
+                v
+            }
+            1 => (0..n).map(|i| if i % 2 == 0 { b'a' } else { b'b' }).collect(),
+            2 => (0..n).map(|i| if i < n / 2 { b'a' } else { b'b' }).collect(),
+            3 => {
+                // random runs of 100..700 symbols
+                let mut v = vec![];
+                while v.len() < n {
+                    let c = *rng.pick(b"ab$");
+                    for _ in 0..rng.range(100, 700) {
+                        if v.len() < n {
+                            v.push(c);
+                        }
+                    }
+                }
+                v
+            }
+            _ => (0..n).map(|i| if i % 300 == 7 { b'b' } else { b'a' }).collect(),
+        };
+        let mut ks: Vec<u32> = vec![257, 300, 512, 514, 600, 1024, n as u32 - 1, n as u32 + 1];
+        ks.sort();
+        ks.dedup();
+        run_raw(log, &st, b"$ab", &ks);
+        log.oblige("run_ge_256_occ_rate_gt_256");
+    }
     // (c) alphabet sweep: rank-transformed texts over dense integer alphabets 0..=max ending in the
     //     sentinel 0, for every max around '$' (36) and around 255, with and without '$' in the alphabet
     let maxes: Vec<u8> = (30..=40u8).chain([127u8, 128, 253, 254, 255].iter().cloned()).collect();
